@@ -69,6 +69,7 @@ class Cfg:
         self.max_depth = 3
         self.launch_rate = 0.45
         self.sync_rate = 0.0
+        self.event_rate = 0.0      # CUDA-event based synchronisation (record / stream-wait / event-synchronize / query)
         self.memcpy_rate = 0.2
         self.noise = True          # metadata / flow / instant entries, Trace span
         self.pre_post = True       # operators before the first / after the last step
@@ -120,6 +121,10 @@ class RankSim:
         self.dev_pid = rank
         self.stream_ids = rng.sample([7, 13, 20, 24, 28, 32], cfg.nstreams + (1 if cfg.two_threads else 0))
         self.last_end: Dict[int, int] = {s: 0 for s in self.stream_ids}
+        # CUDA events recorded so far: {"corr", "stream", "done" (when the work before the record is finished), "t"}
+        self.cuda_events: List[Dict[str, int]] = []
+        # work enqueued on a stream after a cudaStreamWaitEvent starts no earlier than the awaited event completes
+        self.wait_until: Dict[int, int] = {}
         # per-rank vocabulary (ranks differ)
         self.vocab_host = rng.sample(HOST_OPS, rng.randint(3, len(HOST_OPS)))
         self.vocab_comp = rng.sample(COMPUTE_KERNELS, rng.randint(1, len(COMPUTE_KERNELS)))
@@ -171,7 +176,8 @@ class RankSim:
             hname, hcat = rng.choice(KERNEL_LAUNCHES)
             dcat, dname = "kernel", self.kernel_name()
         kstart = max(t + self.g * rng.choice([0, 0, 1, 2, 5]),
-                     self.last_end[stream] + self.g * rng.choice([0, 0, 1, 3, 10]))
+                     self.last_end[stream] + self.g * rng.choice([0, 0, 1, 3, 10]),
+                     self.wait_until.get(stream, 0))
         kdur = self.dur(big=True)
         self.last_end[stream] = kstart + kdur
         drop = rng.random()
@@ -205,6 +211,54 @@ class RankSim:
                {"correlation": c, "External id": c + 1, "cbid": 131, "_stream": waits[0]})
         return end
 
+    def event_op(self, t: int, tid: int, streams: List[int]) -> int:
+        """CUDA-event based synchronisation. Host calls here have positive duration and start one grid unit
+        after `t`, so that launches, records and waits of one thread are strictly ordered in time."""
+        rng, g = self.rng, self.g
+        if not any(self.last_end[x] > 0 for x in streams) and rng.random() < 0.85:
+            return self.launch(t, tid, streams)        # nothing to record yet: enqueue some work first
+        t0 = t + g
+        d = g * rng.choice([1, 1, 2, 3])
+        c = self.next_corr()
+        known = [e for e in self.cuda_events if e["t"] <= t0]
+        kind = rng.choice(["record", "wait", "wait", "wait", "esync", "esync", "query"]) if known else "record"
+        hargs = {"correlation": c, "External id": c + 1, "cbid": 135}
+        if kind == "record":
+            used = [x for x in streams if self.last_end[x] > 0]
+            s = rng.choice(used if used and rng.random() < 0.8 else streams)
+            self.x("cuda_runtime", "cudaEventRecord", self.host_pid, tid, t0, d, hargs)
+            self.cuda_events.append({"corr": c, "stream": s, "done": max(self.last_end[s], self.wait_until.get(s, 0)), "t": t0})
+            return t0 + d
+        if kind == "query":
+            self.x("cuda_runtime", "cudaEventQuery", self.host_pid, tid, t0, d, hargs)
+            self.x("cuda_sync", "Event Sync", self.dev_pid, -1, t0, d,
+                   {"correlation": c, "stream": -1, "device": self.rank, "External id": c + 1, "cuda_sync_kind": "Event Sync",
+                    "wait_on_stream": -1, "wait_on_cuda_event_record_corr_id": -1, "wait_on_cuda_event_id": 9})
+            return t0 + d
+        e = rng.choice(known[-3:])
+        if kind == "wait":
+            others = [x for x in streams if x != e["stream"]]
+            b = rng.choice(others if others and rng.random() < 0.85 else streams)
+            self.x("cuda_runtime", "cudaStreamWaitEvent", self.host_pid, tid, t0, d, hargs)
+            lead = rng.choice([0, 0, g])
+            rd = rng.choice([0, g]) if lead + g <= d else 0
+            self.x("cuda_sync", "Stream Wait Event", self.dev_pid, b, t0 + lead, rd,
+                   {"correlation": c, "stream": b, "device": self.rank, "External id": c + 1, "cuda_sync_kind": "Stream Wait Event",
+                    "wait_on_stream": e["stream"], "wait_on_cuda_event_record_corr_id": e["corr"], "wait_on_cuda_event_id": 19})
+            self.wait_until[b] = max(self.wait_until.get(b, 0), e["done"])
+            if rng.random() < 0.85:
+                # the work that has to wait: the next launch of this thread on the waiting stream
+                return self.launch(t0 + d + g * rng.choice([0, 0, 1]), tid, [b])
+            return t0 + d
+        # cudaEventSynchronize: returns once the event has completed
+        end = max(t0 + d, e["done"] + g * rng.choice([0, 0, 1]))
+        self.x("cuda_runtime", "cudaEventSynchronize", self.host_pid, tid, t0, end - t0, hargs)
+        lead = min(end - t0, g * rng.choice([0, 0, 1]))
+        self.x("cuda_sync", "Event Sync", self.dev_pid, -1, t0 + lead, end - t0 - lead,
+               {"correlation": c, "stream": -1, "device": self.rank, "External id": c + 1, "cuda_sync_kind": "Event Sync",
+                "wait_on_stream": e["stream"], "wait_on_cuda_event_record_corr_id": e["corr"], "wait_on_cuda_event_id": 8})
+        return end
+
     # -- host side -----------------------------------------------------------------------
     def op(self, t: int, depth: int, tid: int, streams: List[int], vocab: List[str]) -> int:
         rng = self.rng
@@ -213,6 +267,8 @@ class RankSim:
             return self.launch(t, tid, streams)
         if depth > 0 and r < self.cfg.launch_rate + self.cfg.sync_rate:
             return self.sync(t, tid, streams)
+        if depth > 0 and self.cfg.event_rate > 0 and r < self.cfg.launch_rate + self.cfg.sync_rate + self.cfg.event_rate:
+            return self.event_op(t, tid, streams)
         name = rng.choice(vocab)
         cat = "cpu_op"
         if rng.random() < 0.08:
